@@ -3,8 +3,11 @@
    knockDetector), the call sites in canary_linux.go (TCP SYN, UDP datagram to a port
    without decoder, ICMP echo), unique-set.go.
 
-   A probe is [src, proto, port] (port 0 for icmp) to one sensor address.  Probes are
-   grouped per (source, protocol class); a group collects the DISTINCT ports probed.
+   A probe is [src, proto, port] (port 0 for icmp) to one sensor address.  Every source
+   reaches the sensor through a link-layer neighbour Via[src] (its own interface on the
+   sensor's segment, or a gateway that several sources share: their frames then carry the
+   same source hardware address).  Probes are grouped per (source address, neighbour,
+   protocol class); a group collects the DISTINCT ports probed.
    When no probe has arrived for the quiet period, every group is reported once - with
    exactly its distinct ports - and removed.
    Deviations (the code as found):
@@ -12,10 +15,13 @@
      "udp_group_is_tcp"        the UDP group leaves its protocol at the zero value (= TCP)
      "remove_while_iterating"  reporting removes groups from the array being iterated:
                                the group after a removed one is skipped this round and the
-                               last one is reported twice                                *)
+                               last one is reported twice
+   Model regression only (never the code as found):
+     "group_ignores_source_ip" groups are told apart by neighbour and class only         *)
 EXTENDS Integers, Sequences, FiniteSets, TLC
 
-CONSTANTS Sources, Deviations
+CONSTANTS Sources, Deviations,
+          Via          \* [Sources -> link-layer neighbours]
 
 VARIABLES groups,     \* sequence of [src, class, kind, ports (sequence without duplicates)]
           reports,    \* sequence of [src, class, ports]
@@ -34,8 +40,9 @@ Probe(p) ==
   /\ UNCHANGED reports
   /\ IF p.proto = "tcp" /\ "tcp_knock_unreachable" \in Deviations THEN UNCHANGED groups
      ELSE LET pp == [proto |-> p.proto, port |-> p.port]
-              idx == { i \in 1..Len(groups) : groups[i].src = p.src /\ groups[i].class = Class(p) } IN
-          IF idx = {} THEN groups' = Append(groups, [src |-> p.src, class |-> Class(p), kind |-> p.proto, ports |-> <<pp>>])
+              idx == { i \in 1..Len(groups) : /\ groups[i].class = Class(p) /\ groups[i].via = Via[p.src]
+                                               /\ (groups[i].src = p.src \/ "group_ignores_source_ip" \in Deviations) } IN
+          IF idx = {} THEN groups' = Append(groups, [src |-> p.src, via |-> Via[p.src], class |-> Class(p), kind |-> p.proto, ports |-> <<pp>>])
           ELSE LET i == CHOOSE i \in idx : TRUE IN
                groups' = [groups EXCEPT ![i].ports = AddPort(groups[i], pp)]
 
